@@ -140,24 +140,39 @@ Proof. vm_compute. reflexivity. Qed.
 (* ============================================================================================== *)
 (* shift_xx *)
 
-(* every chrX bin moves by minus the level expected for the sample's sex against the reference
-   (+1 female on a male reference, -1 male on a female reference, 0 otherwise); no other bin and no
-   other column changes *)
-Theorem C15_shift_xx : forall hap xx t,
-  Forall2 (fun b b' => if String.eqb (b_chrom b) (x_label t)
+(* every chrX bin -- outside PAR1X / PAR2X when a PAR build is given -- moves by minus the level expected
+   for the sample's sex against the reference (+1 female on a male reference, -1 male on a female
+   reference, 0 otherwise); no other bin and no other column changes.  Any build. *)
+Theorem C15_shift_xx : forall hap xx build t,
+  Forall2 (fun b b' => if chr_x_filter t build b
                        then same_but_log2 (- x_offset xx hap) b b' else b' = b)
-          t (shift_xx hap (Some xx) t).
+          t (shift_xx hap (Some xx) build t).
 Proof. exact shift_xx_spec. Qed.
 
-(* so a chrX sitting at the expected level comes to the autosomal level, in all four cases *)
-Theorem C15_shift_xx_level : forall hap xx t a,
-  (forall b, In b t -> b_chrom b = x_label t -> b_log2 b == a + x_offset xx hap) ->
-  forall b', In b' (shift_xx hap (Some xx) t) -> b_chrom b' = x_label t -> b_log2 b' == a.
+(* so a chrX sitting at the expected level comes to the autosomal level, in all four cases ... *)
+Theorem C15_shift_xx_level : forall hap xx build t a,
+  (forall b, In b t -> chr_x_filter t build b = true -> b_log2 b == a + x_offset xx hap) ->
+  forall b', In b' (shift_xx hap (Some xx) build t) -> chr_x_filter t build b' = true -> b_log2 b' == a.
 Proof. exact shift_xx_level. Qed.
 
-(* the two identity cases (female on female reference, male on male reference) *)
-Theorem C15_shift_xx_identity : forall hap xx t, xx = negb hap -> shift_xx hap (Some xx) t = t.
+(* ... and the PAR-X bins, which are there already, are never moved (nor is anything off chrX) *)
+Theorem C15_shift_xx_parx_fixed : forall hap xx p t,
+  Forall2 (fun b b' => (parx_filter t p b = true \/ b_chrom b <> x_label t) -> b' = b)
+          t (shift_xx hap (Some xx) (Some p) t).
+Proof. exact shift_xx_parx_fixed. Qed.
+
+(* the two identity cases (female on female reference, male on male reference), any build *)
+Theorem C15_shift_xx_identity : forall hap xx build t, xx = negb hap -> shift_xx hap (Some xx) build t = t.
 Proof. exact shift_xx_identity. Qed.
+
+(* the input of the repaired defect dff7a3e *)
+Example C15_shift_xx_parx_example :
+  let t := [mkBin "chr1" 0 100 "g" 0 None None; mkBin "chrX" 60000 60100 "g" 0 None None;
+            mkBin "chrX" 5000000 5000100 "g" (-1) None None] in
+  exists p, resolve_build "grch37" = Some p /\
+            map (parx_filter t p) t = [false; true; false] /\
+            map b_log2 (shift_xx false (Some false) (Some p) t) = [0; 0; 0].
+Proof. exact shift_xx_keeps_parx. Qed.
 
 Example C15_x_offset_table :
   x_offset true true == 1 /\ x_offset false false == -1 /\ x_offset true false == 0 /\ x_offset false true == 0.
